@@ -404,7 +404,14 @@ func cmdCheck(args []string) int {
 				os.WriteFile(rp, []byte("bounded stand-in "+b.Name+" failed on the real code\nbound: "+b.Bound+"\nfunctions: "+strings.Join(b.Covers, ", ")+
 					"\n\nEvery BOUNDED-VIOLATION line below names the failing input; the test file is "+filepath.Join(*verif, b.TestFile)+
 					" (injected into ./"+b.Pkg+" through a build overlay).\n\n--- go test output\n"+transcript), 0o644)
-				fmt.Printf("VIOLATION property=%s replay=%s obligation=BOUNDED:%s status=failed replayed-on-real-code\n", cfg.ID, rp, b.Name)
+				if strings.Contains(transcript, "BOUNDED-VIOLATION") {
+					fmt.Printf("VIOLATION property=%s replay=%s obligation=BOUNDED:%s status=failed replayed-on-real-code\n", cfg.ID, rp, b.Name)
+				} else {
+					// the stand-in did not run to a verdict (it no longer builds against
+					// the package, timed out, or panicked outside a guarded call): like an
+					// obligation that cannot be generated, reported without a failing input
+					fmt.Printf("VIOLATION property=%s replay=%s obligation=BOUNDED:%s status=did-not-run no-failing-input-found\n", cfg.ID, rp, b.Name)
+				}
 				exit = 1
 			}
 		}
